@@ -63,32 +63,27 @@ package exchange
 //@   requires c != nil && ctx != nil
 //@   loop 0 invariant c != nil
 
-// The merge goroutine of coalesce.Next for child opIdx: nothing above it recovers, so it must not panic.
-// Its child is a concurrency operator (contained); the ids of the child's batch are re-based by the
-// child's offset before the batch is merged under the mutex; ids and values stay paired.
-// Sequential abstraction: `out` is only touched while c.mu is held; outOK is the invariant of that lock.
-// Assumed (sibling lock-step): the batches of all children of one round have the same number of steps.
-//@ pred outOK(out) = forall k in 0..len(out) :: len(out[k].SampleIDs) == len(out[k].Samples) && allocated(out[k].SampleIDs) && allocated(out[k].Samples)
-//@ pred outSep(out, c) = forall k in 0..len(out) :: ref(out[k].SampleIDs) != ref(c.sampleOffsets)
+// The pull goroutine of coalesce.Next for child opIdx: nothing above it recovers, so it must not panic.
+// Its child is a concurrency operator (whose Next cannot panic); it moves the ids of the child's batch into
+// the child's own window [offset, offset + number of its series) and hands the batch over in slot opIdx -
+// the only thing it writes besides the child's own (fresh) buffers. Merging happens afterwards, in child
+// order, in Next itself: the order of the samples within a step does not depend on scheduling (C11).
 //@ pred inOK(in) = allocated(in) && (forall k in 0..len(in) :: len(in[k].SampleIDs) == len(in[k].Samples) && fresh(in[k].SampleIDs))
 //@ func (*coalesceOperator).Next$2
-//@   requires c != nil && ctx != nil && o != nil && istype(o, *exchange.concurrencyOperator) && c.pool != nil && 0 <= opIdx && opIdx < len(c.sampleOffsets) && !closed(errChan) && outOK(out) && outSep(out, c) && allocated(out) && allocated(c.sampleOffsets) &&
-//@       c.sampleOffsets[opIdx] + o.nSeries <= 9223372036854775807
-//@   assigns elems(execution/model.StepVector)@out, elems(float64), elems(uint64) except c.sampleOffsets, ghost chsent@errChan, ghost ended@o
-//@   at line "if len(in) > 0 && out == nil {" assume sibling-lockstep: isnil(out) || len(out) == len(in)
-//@   ensures[C18] merged-batch-keeps-ids-and-values-paired: outOK(out) && outSep(out, c)
-// Sample identity does not depend on which goroutine finishes first (C11): before the batch is merged every
-// id of child opIdx has been moved into the child's own window [offset, offset + number of its series).
-//@   at line "c.mu.Lock()" assert[C11,C18] ids-rebased-into-the-childs-window: forall k in 0..len(in) :: forall j in 0..len(in[k].SampleIDs) ::
-//@       c.sampleOffsets[opIdx] <= in[k].SampleIDs[j] && in[k].SampleIDs[j] < c.sampleOffsets[opIdx] + o.nSeries
+//@   requires c != nil && ctx != nil && o != nil && istype(o, *exchange.concurrencyOperator) && 0 <= opIdx && opIdx < len(c.sampleOffsets) && opIdx < len(batches) && !closed(errChan) &&
+//@       allocated(c.sampleOffsets) && allocated(batches) && c.sampleOffsets[opIdx] + o.nSeries <= 9223372036854775807
+//@   assigns[C11] elems([]execution/model.StepVector)@batches, ghost chsent@errChan, ghost ended@o
 //@   ensures[C15] child-error-is-reported: callres("model.VectorOperator.Next", 1, 1) != nil ==> sent(errChan) == old(sent(errChan)) + 1
-//@   loop 0 invariant c != nil && o != nil && 0 <= opIdx && opIdx < len(c.sampleOffsets) && c.pool != nil && outOK(out) && outSep(out, c) && !isnil(in) && inOK(in) && allocated(out) && (isnil(out) || ref(in) != ref(out)) &&
+//@   ensures[C11,C18] batch-handed-over-in-the-childs-slot: callres("model.VectorOperator.Next", 1, 1) == nil ==> sameslice(batches[opIdx], callres("model.VectorOperator.Next", 1, 0))
+//@   at line "batches[opIdx] = in" assert[C11,C18] ids-rebased-into-the-childs-window: forall k in 0..len(in) :: forall j in 0..len(in[k].SampleIDs) ::
+//@       c.sampleOffsets[opIdx] <= in[k].SampleIDs[j] && in[k].SampleIDs[j] < c.sampleOffsets[opIdx] + o.nSeries
+//@   loop 0 invariant c != nil && o != nil && 0 <= opIdx && opIdx < len(c.sampleOffsets) && opIdx < len(batches) && inOK(in) && preexisting(batches) &&
 //@       c.sampleOffsets[opIdx] + o.nSeries <= 9223372036854775807 && c.sampleOffsets[opIdx] == old(c.sampleOffsets[opIdx]) && preexisting(c.sampleOffsets)
 //@   loop 0 invariant id-buffers-are-separate: forall a in 0..len(in) :: forall b in a+1..len(in) :: ref(in[a].SampleIDs) != ref(in[b].SampleIDs) || ref(in[a].SampleIDs) == 0
 //@   loop 0 invariant[C11] rebased-so-far: forall k in 0..rangeindex+1 :: forall j in 0..len(in[k].SampleIDs) ::
 //@       c.sampleOffsets[opIdx] <= in[k].SampleIDs[j] && in[k].SampleIDs[j] < c.sampleOffsets[opIdx] + o.nSeries
 //@   loop 0 invariant[C11] rest-as-delivered: forall k in rangeindex+1..len(in) :: forall j in 0..len(in[k].SampleIDs) :: in[k].SampleIDs[j] < o.nSeries
-//@   loop 1 invariant c != nil && o != nil && 0 <= opIdx && opIdx < len(c.sampleOffsets) && c.pool != nil && outOK(out) && outSep(out, c) && !isnil(in) && inOK(in) && allocated(out) && (isnil(out) || ref(in) != ref(out)) &&
+//@   loop 1 invariant c != nil && o != nil && 0 <= opIdx && opIdx < len(c.sampleOffsets) && opIdx < len(batches) && inOK(in) && preexisting(batches) &&
 //@       c.sampleOffsets[opIdx] + o.nSeries <= 9223372036854775807 && c.sampleOffsets[opIdx] == old(c.sampleOffsets[opIdx]) && preexisting(c.sampleOffsets) &&
 //@       0 <= rangeindex0 && rangeindex0 < len(in) && sameslice(vector.SampleIDs, in[rangeindex0].SampleIDs)
 //@   loop 1 invariant id-buffers-are-separate1: forall a in 0..len(in) :: forall b in a+1..len(in) :: ref(in[a].SampleIDs) != ref(in[b].SampleIDs) || ref(in[a].SampleIDs) == 0
@@ -97,8 +92,6 @@ package exchange
 //@   loop 1 invariant[C11] rest-as-delivered1: forall k in rangeindex0+1..len(in) :: forall j in 0..len(in[k].SampleIDs) :: in[k].SampleIDs[j] < o.nSeries
 //@   loop 1 invariant[C11] this-vector-rebased-up-to-i: (forall j in 0..rangeindex+1 :: c.sampleOffsets[opIdx] <= vector.SampleIDs[j] && vector.SampleIDs[j] < c.sampleOffsets[opIdx] + o.nSeries) &&
 //@       (forall j in rangeindex+1..len(vector.SampleIDs) :: vector.SampleIDs[j] < o.nSeries)
-//@   loop 2 invariant c != nil && o != nil && c.pool != nil && outOK(out) && outSep(out, c) && !isnil(in) && 0 <= i && i <= len(in) && len(out) == i && !isnil(out) && fresh(out) && inOK(in) && ref(in) != ref(out)
-//@   loop 3 invariant c != nil && o != nil && c.pool != nil && outOK(out) && outSep(out, c) && !isnil(in) && 0 <= i && i <= len(in) && len(out) == len(in) && inOK(in) && ref(in) != ref(out) && allocated(out)
 
 // concurrencyOperator.Next: starts pull (once) and hands on what arrives through the buffer. It cannot
 // panic itself (no `panics may`): that is what the merge goroutines of the coalesce operator rest on (panics may unless ... in the stream contract).
@@ -127,21 +120,38 @@ package exchange
 //@   loop 1 invariant offset-counts-the-series-so-far: offset == len(c.series)
 //@   loop 1 invariant offsets-so-far: forall j in 0..rangeindex+1 :: c.sampleOffsets[j] <= len(c.series) && (j >= 1 ==> c.sampleOffsets[j-1] <= c.sampleOffsets[j])
 
-// coalesceOperator.Next: starts one merge goroutine per child and returns what they merged. The function
-// itself cannot panic; every merge goroutine is started with the child and the offset of its own index.
-// Assumed (hand-off from the loader goroutines is not modelled): the series list has room for the series
-// of every child behind the child's offset.
+// coalesceOperator.Next: starts one pull goroutine per child - each with the child and the slot of its own
+// index - and then merges the batches in child order: ids and values stay paired, every step vector of the
+// merged batch collects the samples of that step from every child. The function itself cannot panic.
+// Assumed (hand-off from goroutines is not modelled): the series list has room for the series of every
+// child behind the child's offset; a slot holds nil or the batch its goroutine handed over, with ids and
+// values paired (what Next$2 is proved to store); the batches of one round have the same number of steps.
 //@ pred coInv(c) = c != nil && c.pool != nil && (forall j in 0..len(c.operators) :: c.operators[j] != nil && istype(c.operators[j], *exchange.concurrencyOperator))
+//@ pred outOK(out) = forall k in 0..len(out) :: len(out[k].SampleIDs) == len(out[k].Samples) && allocated(out[k].SampleIDs) && allocated(out[k].Samples) &&
+//@     fresh(out[k].SampleIDs) && fresh(out[k].Samples)
+//@ pred slotsOK(batches, out) = (forall j in 0..len(batches) :: isnil(batches[j]) || (allocated(batches[j]) && (forall k in 0..len(batches[j]) :: len(batches[j][k].SampleIDs) == len(batches[j][k].Samples)))) &&
+//@     (forall j in 0..len(batches) :: isnil(batches[j]) || isnil(out) || ref(batches[j]) != ref(out))
 //@ func (*coalesceOperator).Next
 //@   requires ctx != nil && coInv(c)
 //@   requires series-loaded-once: c.once != 0 ==> len(c.sampleOffsets) == len(c.operators) && allocated(c.sampleOffsets)
-//@   assigns exchange.coalesceOperator.sampleOffsets, exchange.coalesceOperator.series, exchange.coalesceOperator.once, model.VectorPool.stepSize, elems(uint64), elems(float64), elems(execution/model.StepVector), ghost chsent, ghost chclosed, ghost ended
+//@   assigns exchange.coalesceOperator.sampleOffsets, exchange.coalesceOperator.series, exchange.coalesceOperator.once, model.VectorPool.stepSize, ghost chsent, ghost chclosed, ghost ended
 //@   ensures[C18] error-means-no-batch: result1 != nil ==> isnil(result0)
+//@   ensures[C18] merged-batch-keeps-ids-and-values-paired: result1 == nil && !isnil(result0) ==> outOK(result0) && fresh(result0)
 //@   at line "for idx, o := range c.operators {" assume series-lists-as-reported-by-the-children: forall j in 0..len(c.operators) :: c.sampleOffsets[j] + c.operators[j].nSeries <= 9223372036854775807
-//@   at exchange.(*coalesceOperator).Next$2 assert[C11] merge-goroutine-of-child-idx: $opIdx == idx && $o == c.operators[idx]
+//@   at exchange.(*coalesceOperator).Next$2 assert[C11] pull-goroutine-of-child-idx: $opIdx == idx && $o == c.operators[idx]
+//@   at line "var out []model.StepVector = nil" assume batches-as-handed-over: forall j in 0..len(batches) :: isnil(batches[j]) || (allocated(batches[j]) &&
+//@       (forall k in 0..len(batches[j]) :: len(batches[j][k].SampleIDs) == len(batches[j][k].Samples)))
+//@   at line "for i := 0; i < len(in); i++ {" assume sibling-lockstep: isnil(out) || len(out) == len(in)
 //@   loop 0 invariant a: ctx != nil && coInv(c)
-//@   loop 0 invariant b: len(c.sampleOffsets) == len(c.operators)
+//@   loop 0 invariant b: len(c.sampleOffsets) == len(c.operators) && len(batches) == len(c.operators) && fresh(batches)
 //@   loop 0 invariant cc: allocated(c.sampleOffsets)
 //@   loop 0 invariant d: !closed(errChan)
-//@   loop 0 invariant e: outOK(out) && outSep(out, c) && allocated(out)
 //@   loop 0 invariant f: forall j in 0..len(c.operators) :: c.sampleOffsets[j] + c.operators[j].nSeries <= 9223372036854775807
+//@   loop 1 invariant merge-shape: coInv(c) && len(batches) == len(c.operators) && outOK(out) && (isnil(out) || fresh(out)) && allocated(out) && allocated(batches)
+//@   loop 1 invariant slots1: slotsOK(batches, out)
+//@   loop 2 invariant coInv(c) && len(batches) == len(c.operators) && allocated(batches) && outOK(out) && !isnil(in) && 0 <= i && i <= len(in) && len(out) == i && !isnil(out) && fresh(out) && allocated(in) && ref(in) != ref(out) &&
+//@       (forall k in 0..len(in) :: len(in[k].SampleIDs) == len(in[k].Samples)) && 0 <= opIdx && opIdx < len(c.operators)
+//@   loop 2 invariant slots2: slotsOK(batches, out)
+//@   loop 3 invariant coInv(c) && len(batches) == len(c.operators) && allocated(batches) && outOK(out) && !isnil(in) && 0 <= i && i <= len(in) && len(out) == len(in) && allocated(in) && ref(in) != ref(out) && allocated(out) && fresh(out) &&
+//@       (forall k in 0..len(in) :: len(in[k].SampleIDs) == len(in[k].Samples)) && 0 <= opIdx && opIdx < len(c.operators)
+//@   loop 3 invariant slots3: slotsOK(batches, out)
